@@ -634,7 +634,9 @@ namespace BitSerializer::Convert::Detail
 						{
 							constexpr uint64_t maxI64Negative = 9223372036854775808u;
 							if (value <= maxI64Negative) {
-								SafeAddDuration(duration, transformToDuration(-static_cast<int64_t>(value), sym, isDatePart));
+								// Avoid the negation of INT64_MIN (signed overflow)
+								const int64_t negValue = value == maxI64Negative ? std::numeric_limits<int64_t>::min() : -static_cast<int64_t>(value);
+								SafeAddDuration(duration, transformToDuration(negValue, sym, isDatePart));
 							}
 							else {
 								throw std::out_of_range("ISO duration contains too big number");
